@@ -543,10 +543,17 @@ pub fn gen_big(prop: &str, seed: u64, idx: u64) -> (StreamScenario, GenInfo) {
         _ => (b'a'..=b'z').collect(),
     };
     // longest pattern: around the interesting capacities
-    let long = *r.pick(&[
-        1usize, 2, 3, 7, 7, 100, 100, 1000, 4096, 8191, 8192, 8193, 9000, 12000, 16384, 30000,
-        65535, 65536, 65537, 70000,
-    ]);
+    // rarely a pattern beyond 128 KiB / 1 MiB / 2 MiB (capacity clamps, large allocations)
+    let giant = r.chance(1, 50);
+    let long = if giant {
+        *r.pick(&[131_072usize, 200_000, 1_048_575, 1_048_576, 1_048_577, 1_500_000, 2_097_152])
+    } else {
+        *r.pick(&[
+            1usize, 2, 3, 7, 7, 100, 100, 1000, 4096, 8191, 8192, 8193, 9000, 12000, 16384, 30000,
+            65535, 65536, 65537, 70000,
+        ])
+    };
+    let size_cap = if giant { 24_000_000 } else { 700_000 };
     let mut pats = vec![rand_bytes(r, &pal, long)];
     for _ in 0..r.range(0, 3) {
         let l = r.range(1, 6);
@@ -564,9 +571,9 @@ pub fn gen_big(prop: &str, seed: u64, idx: u64) -> (StreamScenario, GenInfo) {
         2 => cap - 1,
         3 => r.range(cap + 1, cap + maxlen + 10),
         4 => r.range(65536, 200_000),
-        5 => (cap + (cap - maxlen.min(cap - 1)) * r.range(1, 3) + r.below(3)).saturating_sub(1).min(700_000),
-        6 => r.range(2 * cap, 4 * cap).min(700_000),
-        _ => r.range(cap, 2 * cap + 5).min(700_000),
+        5 => (cap + (cap - maxlen.min(cap - 1)) * r.range(1, 3) + r.below(3)).saturating_sub(1).min(size_cap),
+        6 => r.range(2 * cap, 4 * cap).min(size_cap),
+        _ => r.range(cap, 2 * cap + 5).min(size_cap),
     };
     // stream: mostly random with planted occurrences, in particular straddling
     // the first capacity boundary
